@@ -170,7 +170,8 @@ def prepare_op(case, df1, path, other):
     elif kind == "extra_column":
         df["__extra__"] = np.arange(n1)
     elif kind == "diff_scheme":
-        kw["file_scheme"] = "hive" if scheme == "simple" else "simple"
+        # (hive and drill are one class of scheme for an append: only the single-file / multi-file difference is refused)
+        kw["file_scheme"] = ("hive" if case["colpos"] != "last" else "drill") if scheme == "simple" else "simple"
         kw.pop("partition_on", None)
     elif kind == "diff_partition":
         if scheme == "simple":
@@ -184,6 +185,8 @@ def prepare_op(case, df1, path, other):
             if not other_pn:
                 raise NotApplicable("no column to partition on")
             kw["partition_on"] = other_pn
+        if case["colpos"] == "last":
+            kw["file_scheme"] = "drill"      # the other multi-file spelling: the partitioning still has to match
     elif kind == "unknown_codec":
         kw["compression"] = "NOPE"
     elif kind == "unknown_codec_col":
